@@ -70,7 +70,7 @@ def main(chk):
             runs.append({"hashseed": o["hashseed"], "first": r["first"], "second": r["second"],
                          "draws_ok": r["draws_ok"]})
             chk.count("draws_recorded", r["ndraws"])
-        reprs = [("(%r) + (%r)" % (am.g_schema(s["a"]), am.g_schema(s["b"])))[:160] if "x" in s
+        reprs = [("%s(%r, ...)" % (s["x"], am.g_schema(s["a"])))[:160] if "x" in s
                  else repr(am.g_schema(s))[:120] for s in j["seq"]]
         events.append({"id": j["id"], "seed": j["seed"], "seq": j["seq"], "runs": runs, "reprs": reprs})
         chk.count("sequences")
